@@ -18,6 +18,9 @@ pub mod elgamal;
 /// Support for distributed Elgamal.
 #[allow(dead_code)]
 mod keymaker;
+/// Verification hooks: public wrappers of the crate-private keymaker.
+#[cfg(feature = "strand_verif")]
+pub use keymaker::verif as keymaker_verif;
 /// Random number generation frontend.
 #[doc(hidden)]
 pub mod rnd;
